@@ -97,6 +97,81 @@ def r_blocks(ctx):
                "%d blocks, %d fresh leaves, blocks sum to the point, same objects when asked again, own blocks per point" % (d, d - 1) if msg is None else msg, loc(fn, fn))
 
 
+def r_ortho_program(ctx, fn):
+    """add_partition_constraints unrolled (sa/miniint.py) for d = 1..3 blocks and 0..2 decomposed points: the relations generated are exactly
+    <block k of a, block l of b> == 0 for every unordered choice of two *different* block numbers k != l and all decomposed points a, b (a == b
+    included), each once -- and nothing else.  Raises AnalysisError when the routine leaves the interpreter's fragment."""
+    from ..miniint import IndexInterp, SymObj, is_token
+    n = 0
+    for d, npts, prior in [(d0, n0, False) for d0 in (1, 2, 3) for n0 in (0, 1, 2)] + [(2, 2, True), (3, 1, True)]:
+        if True:
+            pts = [SymObj("Point", label="pq"[i]) for i in range(npts)]
+            blocks = {p: [SymObj("Point", label="%s_%d" % (p.attrs["label"], k), owner=p, block=k) for k in range(d)] for p in pts}
+            # `prior`: the partition already holds a constraint (one the user attached, or what an earlier solve generated)
+            earlier = [SymObj("Constraint", label="already there")] if prior else []
+            me = SymObj("BlockPartition", label="self", d=d, blocks_dict=blocks, list_of_constraints=list(earlier), counter=0)
+            got = []
+
+            def on_call(node, it):
+                nm = call_name(node)
+                if isinstance(node.func, ast.Attribute) and dotted(node.func.value) == "self":
+                    if nm == "add_constraint" and len(node.args) + len(node.keywords) == 1:
+                        got.append(it.ev(node.args[0] if node.args else node.keywords[0].value))
+                        return None
+                    if nm == "get_nb_blocks":
+                        return d
+                return NotImplemented
+            it = IndexInterp({"self": me}, on_call=on_call)
+            try:
+                it.run(fn.body)
+            except AnalysisError as ex:
+                if "the index program raises" in str(ex):
+                    ctx.ob("R-ORTHO", "BlockPartition.add_partition_constraints::d=%d, %d point(s)%s (unrolled)" % (d, npts, ", a constraint already attached" if prior else ""), False,
+                           "the generator raises on a well-formed partition: %s" % ex, loc(fn, fn))
+                    continue
+                raise
+            got = got + [c for c in me.attrs["list_of_constraints"] if not any(c is e0 for e0 in earlier)]
+            n += 1
+            msg = None
+            pairs = []
+            for c in got:
+                rel = None
+                if is_token(c) and c[0] == "cmp" and c[1] == "Eq":
+                    l, r = (c[2], c[3]) if c[3] == 0 else ((c[3], c[2]) if c[2] == 0 else (None, None))
+                    if is_token(l) and l[0] == "op" and l[1] == "Mult" and all(isinstance(x, SymObj) and "owner" in x.attrs for x in l[2:4]):
+                        rel = (l[2], l[3])
+                if rel is None:
+                    msg = "a relation is `%r`, not <block, block> == 0" % (c,)
+                    break
+                pairs.append(rel)
+            if msg is None:
+                want = {}
+                allb = [b for p in pts for b in blocks[p]]
+                for i, a in enumerate(allb):
+                    for b in allb[i + 1:]:
+                        if a.attrs["block"] != b.attrs["block"]:
+                            want[frozenset((id(a), id(b)))] = (a, b)
+                seen = {}
+                for a, b in pairs:
+                    key = frozenset((id(a), id(b)))
+                    if key not in want:
+                        msg = "the relation <%s, %s> == 0 is imposed: %s" % (a.attrs["label"], b.attrs["label"],
+                                                                             "blocks with the same number are not orthogonal" if a.attrs["block"] == b.attrs["block"] else "unexpected")
+                        break
+                    seen[key] = seen.get(key, 0) + 1
+                if msg is None:
+                    missing = [v for k0, v in want.items() if k0 not in seen]
+                    twice = [want[k0] for k0, c0 in seen.items() if c0 > 1]
+                    if missing:
+                        msg = "no relation between %s and %s (%d of %d relations missing)" % (missing[0][0].attrs["label"], missing[0][1].attrs["label"], len(missing), len(want))
+                    elif twice:
+                        msg = "the relation between %s and %s is generated %d times in one call" % (twice[0][0].attrs["label"], twice[0][1].attrs["label"], max(seen.values()))
+            ctx.ob("R-ORTHO", "BlockPartition.add_partition_constraints::d=%d, %d point(s)%s (unrolled)" % (d, npts, ", a constraint already attached" if prior else ""), msg is None,
+                   "every pair of blocks with different numbers, over all decomposed points, exactly once" if msg is None else msg, loc(fn, fn))
+    ctx.count("partition programs unrolled", n)
+    return n
+
+
 def r_ortho(ctx):
     repo = ctx.repo
     bp = repo.cls("BlockPartition")
@@ -104,6 +179,11 @@ def r_ortho(ctx):
     if fn is None:
         raise AnalysisError("BlockPartition.add_partition_constraints missing")
     ctx.unit("BlockPartition.add_partition_constraints")
+    try:
+        r_ortho_program(ctx, fn)
+        return
+    except AnalysisError as ex:
+        ctx.notes.append("R-ORTHO: %s -- shape clauses applied instead" % ex)
     adds = [c for c in ast.walk(fn) if isinstance(c, ast.Call) and ((call_name(c) == "add_constraint" and dotted(c.func.value) == "self")
                                                                    or (call_name(c) == "append" and dotted(c.func.value) == "self.list_of_constraints"))]
     if len(adds) != 1:
